@@ -308,7 +308,7 @@ func handleUIDCopy(deps ServerDeps, conn net.Conn, tag string, parts []string, s
 	}
 
 	uidSequence := parts[3]
-	destMailbox := strings.Trim(strings.Join(parts[4:], " "), "\"")
+	destMailbox := utils.ParseQuotedString(strings.Join(parts[4:], " "))
 
 	// Parse UID sequence set using the correct database
 	uids := utils.ParseUIDSequenceSetWithDB(uidSequence, state.SelectedMailboxID, targetDB)
